@@ -57,7 +57,11 @@ func newSemaUni() (*semaUni, error) {
 	}
 	u := &semaUni{checker: ch, comp: map[string]*sema.CompositeType{}, iface: map[string]*sema.InterfaceType{}, ent: map[string]*sema.EntitlementType{}}
 	id := func(n string) common.TypeID { return common.TypeID("A.0000000000000001." + n) }
-	for _, n := range []string{"C", "C.S", "C.S2", "C.Node", "C.Box", "C.Emp", "C.W", "C.R", "C.RBox", "C.Ev", "C.En", "C.A"} {
+	names := []string{"C", "C.S", "C.S2", "C.Node", "C.Box", "C.Emp", "C.W", "C.R", "C.RBox", "C.Ev", "C.En", "C.A", "C.A0", "C.A2", "C.AR", "C.AR0", "C.Leaf"}
+	for _, m := range cdcval.ThePrelude().Mix {
+		names = append(names, m.QualifiedIdentifier)
+	}
+	for _, n := range names {
 		t := ch.Elaboration.CompositeType(id(n))
 		if t == nil {
 			return nil, fmt.Errorf("prelude has no composite %s", n)
@@ -699,6 +703,13 @@ func checkPreludeConsistency(env *mc.Env, u *semaUni) {
 	}{
 		{"C.S", p.S}, {"C.S2", p.S2}, {"C.Node", p.Node}, {"C.Box", p.Box}, {"C.W", p.W}, {"C.R", p.R}, {"C.RBox", p.RBox},
 		{"C.Ev", p.Ev}, {"C.En", p.En}, {"C.A", p.A}, {"C", p.Ct},
+		{"C.A0", p.A0}, {"C.A2", p.A2}, {"C.AR", p.AR}, {"C.AR0", p.AR0}, {"C.Leaf", p.Leaf},
+	}
+	for _, m := range p.Mix {
+		pairs = append(pairs, struct {
+			n string
+			c cadence.Type
+		}{m.QualifiedIdentifier, m})
 	}
 	var diffs []string
 	for _, pr := range pairs {
